@@ -33,6 +33,28 @@ def signal_calls(c: Ctx, method: str) -> list[tuple[Unit, ast.Call]]:
     return sorted(out, key=lambda x: (x[0].module, x[1].lineno))
 
 
+def _single_pass_all_terminal(fn: ast.AST):
+    """`for r in X.event_results.values(): if <r not terminal>: return None ...` is `if not all(<r terminal> for r in ...): return None` followed by the rest of the pass.
+    Returns (the equivalent all(...) call, the loop) or None."""
+    for lp in [n for n in own_nodes(fn) if isinstance(n, ast.For) and isinstance(n.target, ast.Name) and isinstance(n.iter, ast.Call) and U(n.iter.func).endswith('event_results.values')]:
+        first = lp.body[0] if lp.body else None
+        if not (isinstance(first, ast.If) and not first.orelse and len(first.body) == 1 and isinstance(first.body[0], ast.Return)
+                and (first.body[0].value is None or (isinstance(first.body[0].value, ast.Constant) and first.body[0].value.value is None))):
+            continue
+        t = first.test
+        pos = None
+        if isinstance(t, ast.UnaryOp) and isinstance(t.op, ast.Not):
+            pos = t.operand
+        elif isinstance(t, ast.Compare) and len(t.ops) == 1 and isinstance(t.ops[0], ast.NotIn):
+            pos = ast.Compare(left=t.left, ops=[ast.In()], comparators=t.comparators)
+        if pos is None:
+            continue
+        gen = ast.GeneratorExp(elt=pos, generators=[ast.comprehension(target=lp.target, iter=lp.iter, ifs=[], is_async=0)])
+        call = ast.fix_missing_locations(ast.copy_location(ast.Call(func=ast.Name(id='all', ctx=ast.Load()), args=[gen], keywords=[]), lp))
+        return call, lp
+    return None
+
+
 def all_terminal_shape(e: ast.AST) -> tuple[bool, str]:
     """`all(<r>.status in ('completed', 'error') for <r> in <X>.event_results.values())`"""
     if not (isinstance(e, ast.Call) and isinstance(e.func, ast.Name) and e.func.id == 'all' and len(e.args) == 1):
@@ -136,7 +158,17 @@ def c03_1(c: Ctx) -> None:
             c.fail(owner, f'all-terminal predicate: {U(asg.value)[:100]}', f'the "all handler results terminal" predicate is wrong ({why})', node=asg)
     sib = c.unit(MOD, 'BaseEvent.event_completed_at')
     sib_preds = [n for n in own_nodes(sib.node) if isinstance(n, ast.Call) and isinstance(n.func, ast.Name) and n.func.id in ('all', 'any')]
-    if len(sib_preds) != 1:
+    single_pass = _single_pass_all_terminal(sib.node) if not sib_preds else None
+    if single_pass is not None:
+        ok, why = all_terminal_shape(single_pass[0])
+        loop = single_pass[1]
+        late = [x for x in own_nodes(sib.node) if isinstance(x, ast.Return) and x.value is not None and not (isinstance(x.value, ast.Constant) and x.value.value is None)
+                and (q.lexically_in(x, loop) or x.lineno < loop.lineno) and not (x.lineno < loop.lineno and q.enclosing(x, (ast.If,)) is not None and 'event_results' in U(q.enclosing(x, (ast.If,)).test))]
+        if ok and not late and not any(isinstance(x, ast.Break) for x in ast.walk(loop)):
+            c.ok(where(sib, loop), 'sibling predicate in event_completed_at agrees (written as one pass over the results that returns None at the first result that is not terminal; a timestamp is returned only after the pass)')
+        else:
+            c.fail(sib, f'sibling all-terminal pass: {U(loop.body[0])[:100]}', f'event_completed_at (which event_status and the children test read) uses a different "all terminal" predicate ({why or "a timestamp can be returned before every result was looked at"})', node=loop)
+    elif len(sib_preds) != 1:
         c.fail(sib, f'{len(sib_preds)} all()/any() predicates', 'event_completed_at (read by event_status and the children test) has no single all-terminal predicate')
     for pr in sib_preds:
         ok, why = all_terminal_shape(pr)
@@ -534,6 +566,14 @@ def c03_9(c: Ctx) -> None:
     from .c13 import c13_2
 
     c13_2(c)
+
+
+@ob('C03.10', 'FACTS', 'awaiting an event returns only when its completion signal is known to be set (same obligation as C04.3): a return of the await coroutine that does not '
+    'depend on the signal — a fast path on event_status, say, which only says the event\'s own handlers are done — hands back an event whose descendants are still running')
+def c03_10(c: Ctx) -> None:
+    from .c04 import c04_3
+
+    c04_3(c)
 
 
 OBLIGATIONS = ob.obs
